@@ -194,24 +194,37 @@ def _refused_stream_calls(ctx: Ctx, model: ExcModel) -> None:
     guards = [n for n in walk_scope(helper.node) if isinstance(n, ast.If)]
     # evaluate the helper's early-return guard over (is_stream, has_header)
     ok_all = True
+    import itertools
+
+    base_keys = {"info.method_type", "MethodType.STREAM", "MethodType.UNARY", "info.header_type"}
+    # any other attribute of the method description the guard reads (stream kind, ...) is a free input: the pipe client
+    # of every header-less stream method -- producer ticks included -- writes an input stream, so the answer may not depend on it
+    extra = sorted({txt(a) for g in guards for a in ast.walk(g.test) if isinstance(a, ast.Attribute) and txt(a) not in base_keys and not any(k.startswith(txt(a) + ".") for k in base_keys)
+                    and isinstance(a.value, ast.Name)})
+    if len(extra) > 3:
+        raise AnalysisError("C04: too many free attributes in the discard guard")
+    witness = ""
     for is_stream in (True, False):
         for has_header in (True, False):
-            env = {"info.method_type": "S" if is_stream else "U", "MethodType.STREAM": "S", "MethodType.UNARY": "U", "info.header_type": object() if has_header else None}
-            reach_drain = True
-            for g in guards:
-                val = bool(mini_eval(g.test, env))
-                tg = {v for (_u, v) in hc.test_edges(g, "T" if val else "F")}
-                dn: set[int] = set()
-                for d in drains:
-                    dn |= hc.attempt(d)
-                if not (hc.reach(tg) & dn):
-                    reach_drain = False
-            want = is_stream and not has_header
-            if reach_drain != want:
-                ok_all = False
+            for xv in itertools.product((True, False, None), repeat=len(extra)):
+                env = {"info.method_type": "S" if is_stream else "U", "MethodType.STREAM": "S", "MethodType.UNARY": "U", "info.header_type": object() if has_header else None}
+                env.update(zip(extra, xv))
+                reach_drain = True
+                for g in guards:
+                    val = bool(mini_eval(g.test, env))
+                    tg = {v for (_u, v) in hc.test_edges(g, "T" if val else "F")}
+                    dn: set[int] = set()
+                    for d in drains:
+                        dn |= hc.attempt(d)
+                    if not (hc.reach(tg) & dn):
+                        reach_drain = False
+                want = is_stream and not has_header
+                if reach_drain != want:
+                    ok_all = False
+                    witness = witness or f" [stream={is_stream}, header={has_header}" + "".join(f", {k}={v}" for k, v in zip(extra, xv)) + f": drains={reach_drain}]"
     ctx.check(ok_all, "RF-ABS", "discard-helper-drains-iff-headerless-stream", helper, guards[0] if guards else drains[0],
               ok="input is consumed exactly for stream methods without a declared header (a header-declaring method's client never opens an input stream after an error)",
-              bad="the helper's guard does not drain exactly for header-less stream methods (draining for unary/header methods swallows the next request; not draining for header-less streams desynchronises the connection)")
+              bad="the helper's guard does not drain exactly for header-less stream methods (draining for unary/header methods swallows the next request; not draining for header-less streams -- exchange or producer, whose client sends tick batches -- desynchronises the connection)" + witness)
     ctx.check(any("reader" in txt(a) for d in drains for a in ast.walk(d)) or any("transport.reader" in txt(x) for x in ast.walk(helper.node)), "RF-PAIR", "discard-helper-reads-transport", helper, drains[0],
               ok="drains the connection's reader", bad="does not read from the connection's reader")
 
